@@ -259,6 +259,9 @@ class StudyConfig(base_study_config.ProblemStatement):
         proto_converters.SearchSpaceConverter.parameter_protos(
             self.search_space))
 
+    # The internally stored proto may carry a stopping spec that has since been
+    # removed from this object.
+    proto.ClearField('automated_stopping_spec')
     if self.automated_stopping_config is not None:
       auto_stop_proto = self.automated_stopping_config.to_proto()
       if isinstance(auto_stop_proto,
